@@ -130,8 +130,7 @@ func structLiteral(x *ssa.Alloc, d int, seen map[ssa.Value]bool) string {
 	if !ok {
 		return ""
 	}
-	st, ok := pt.Elem().Underlying().(*types.Struct)
-	if !ok || x.Parent() == nil {
+	if _, ok := pt.Elem().Underlying().(*types.Struct); !ok || x.Parent() == nil {
 		return ""
 	}
 	vals := map[string]string{}
@@ -142,10 +141,32 @@ func structLiteral(x *ssa.Alloc, d int, seen map[ssa.Value]bool) string {
 				continue
 			}
 			fa, ok := s.Addr.(*ssa.FieldAddr)
-			if !ok || fa.X != ssa.Value(x) {
+			if !ok {
 				continue
 			}
-			name := st.Field(fa.Field).Name()
+			// direct field, or a field of an embedded/nested struct field (x.Subject.CommonName = …)
+			name := ""
+			cur := fa
+			for depth := 0; depth < 3; depth++ {
+				_, f := core.FieldOf(cur)
+				if name == "" {
+					name = f
+				} else {
+					name = f + "." + name
+				}
+				if cur.X == ssa.Value(x) {
+					break
+				}
+				next, isFA := cur.X.(*ssa.FieldAddr)
+				if !isFA {
+					name = ""
+					break
+				}
+				cur = next
+			}
+			if name == "" || cur.X != ssa.Value(x) {
+				continue
+			}
 			if _, dup := vals[name]; dup {
 				return "" // assigned more than once: a variable, not a literal
 			}
